@@ -19,7 +19,10 @@ RULE = ("valid texts from a type-directed generator (all kinds, nesting, member 
         "0..130 bytes); EVERY proper prefix of valid texts up to 300 bytes; single-byte replacements / deletions / insertions at every "
         "position of texts up to 120 bytes from an alphabet of structural, control and high bytes; each text shifted by 0..63 leading "
         "spaces (position relative to the 32/64-byte blocks); trailing garbage after the root; sentinel look-alikes (x\"x); deep and "
-        "uneven nesting.  distinct = distinct command line; non-trivial = longer than 2 bytes")
+        "uneven nesting; pretty-printed documents with every indentation width 0..140 (blanks, tabs, CRLF) and their prefixes; EVERY byte "
+        "value at token positions behind 2/3/64 (thorough: 0..70) blanks; numbers at the overflow / underflow / integer-kind boundaries "
+        "for every mantissa width; raw control bytes after an escape at every block distance.  distinct = distinct command line; "
+        "non-trivial = longer than 2 bytes")
 EXPLANATION = ("Oracle: Spec.Json.parse (Lean recursive-descent reader written from RFC 8259 with Spec.decodeLit / Spec.Number.scanNumber / "
                "Spec.Rne), evaluated by the compiled driver on every input; the implementation must accept iff the spec does, report "
                "code 0 and offset = length on success, and a parse error code, a null document and an offset within [0,len] on failure "
